@@ -543,5 +543,26 @@ func main() {
 	tok.constsOut("tokens", &w)
 	write(leandir, "Consts", w.String())
 
-	extractFuncs(root, specp, fcl, tok, leandir)
+	// per-area emitters (tools/extract/<area>.go register themselves in init())
+	names := make([]string, 0, len(emitters))
+	for n := range emitters {
+		names = append(names, n)
+	}
+	sort.Strings(names)
+	pk := &Pkgs{Root: root, Spec: specp, Fclient: fcl, Tokens: tok, Repo: repo}
+	for _, n := range names {
+		w.Reset()
+		emitters[n](pk, &w)
+		write(leandir, n, w.String())
+	}
 }
+
+// Pkgs are the parsed packages of /repo handed to the emitters.
+type Pkgs struct {
+	Root, Spec, Fclient, Tokens *pkg
+	Repo                        string
+}
+
+// emitters maps a VGen module name (file lean/VGen/<name>.lean, namespace VGen) to the function
+// that writes its body. An emitter calls fail(...) when the source has left the subset it understands.
+var emitters = map[string]func(p *Pkgs, w *strings.Builder){}
